@@ -605,6 +605,13 @@ impl LzmaDecoder {
     /// the input dict size, expected unpacked data size, and memory limit
     /// for the internal buffer.
     pub fn new(params: LzmaParams, memlimit: Option<usize>) -> error::Result<LzmaDecoder> {
+        if params.dict_size == 0 {
+            // A zero-sized window cannot hold a single byte (and indexing it
+            // would divide by zero).
+            return Err(error::Error::LzmaError(
+                "LZMA dictionary size must not be zero".to_string(),
+            ));
+        }
         Ok(Self {
             params,
             memlimit: memlimit.unwrap_or(usize::MAX),
